@@ -643,7 +643,7 @@ func c08EdDSA(c *kc.Ctx) {
 	}
 
 	// --- verification: structured mutations, real code + model ---
-	nBase := c.N(3, 6)
+	nBase := c.N(3, 4)
 	for bi := 0; bi < nBase; bi++ {
 		seed := rng.Bytes(32)
 		k := edKeyFromSeed(c, seed, bi)
@@ -669,7 +669,7 @@ func c08EdDSA(c *kc.Ctx) {
 		}
 	}
 	// --- verification: many more honest signatures, every bit of sigma, real code only ---
-	nWide := c.N(25, 300)
+	nWide := c.N(25, 150)
 	for bi := 0; bi < nWide; bi++ {
 		k := edKeyFromSeed(c, rng.Bytes(32), bi)
 		other := edKeyFromSeed(c, rng.Bytes(32), bi)
